@@ -65,13 +65,19 @@ CLAUSES = {
     "shares of different splits / ids / exponents / thresholds / lengths are rejected": "proved for differing id / exponent / threshold / "
         "count / length / repeated index (accepted_sets_consistent, mismatching_*_rejected, recover_mnemonic_accepts_only_consistent); "
         "two splits that share id and parameters are told apart only by the digest (probability 2^-32 per attempt): correspondence-only",
-    "Share.parse ∘ mnemonic round trip": "proved for all in-range fields (parse_mnemonic_roundtrip, slip39_table_facts)",
+    "Share.parse ∘ mnemonic round trip": "proved for all in-range fields (parse_mnemonic_roundtrip, slip39_table_facts) and conversely "
+                                         "parse is sound: its result is in range and re-encodes to a mnemonic parsing to itself "
+                                         "(parse_sound, share_init_iff)",
+    "object reuse (one ShareSet / Share / module tables used repeatedly)": "model: recover is a pure function of the attributes fixed at "
+        "construction and the current .shares (shareset_recover_repeatable, shareset_history_step, shareset_fresh); correspondence: "
+        "kinds ss_history, share_reser, *:again (every query twice), predicates shareset_history, process_state",
     "RS1024 detects any single-word error": "proved at every length and position (rs1024_single_error, share_single_word_error, "
                                             "rs1024_create_verifies)",
-    "RS1024 detects two- and three-word errors": "partial(two words at most 63 positions apart — every pair of positions of a 20/33-word "
-                                                 "share — proved: rs1024_two_errors_partial, kernel check two_check); three-word errors "
-                                                 "correspondence-only (UNPROVED comment in Props/C15.lean: needs the minimum distance of the "
-                                                 "RS code over GF(1024)); harness kinds share_parse:corrupt2/3, predicate "
+    "RS1024 detects two- and three-word errors": "proved for every choice of positions in 20- and 33-word shares: up to three wrong words "
+                                                 "with first and last at most 32 positions apart (rs1024_three_errors_partial, kernel "
+                                                 "certificate three_check: inverse matrices for all 496 gap pairs) and two wrong words up to "
+                                                 "63 apart (rs1024_two_errors_partial, two_check); longer sequences than shares can have: "
+                                                 "UNPROVED comment in Props/C15.lean; harness kinds share_parse:corrupt2/3, predicate "
                                                  "corrupted_share_rejected",
     "decrypt ∘ encrypt = id (Feistel)": "proved for every round function of the requested output length (decrypt_encrypt, encrypt_domain)",
     "O15a: k = 1 yields one share whatever n": "observation, modelled faithfully and proved (split_k1); not a finding",
@@ -1272,13 +1278,13 @@ def run(ctx):
             "pass": xb(PASSPHRASES[j] if j < len(PASSPHRASES) else pw_choice())}))
 
     # ---------------------------------------------------------------- 8. histories on ONE object / one process
-    hsets = [st for st in sets if st["e"] == 0][: ctx.n(10)]
+    hsets = [st for st in sets if st["e"] == 0][: ctx.n(8)] + [st for st in sets if st["e"] == 1][: ctx.n(2)]
     for st in hsets:
         sh, k, pw = st["shares"], st["k"], st["pw"]
         ops = []
 
         def R(p):
-            cost[0] += 1
+            cost[0] += 1 << st["e"]
             ops.extend(["R", xb(p)])
 
         def Sset(l):
@@ -1296,6 +1302,7 @@ def run(ctx):
             # a foreign share smuggled in after construction (no re-validation): the object keeps ITS id / exponent /
             # threshold; whatever happens, model and code must agree
             Sset(sh[:max(1, k - 1)] + [other[0]["shares"][-1]]); R(pw)
+            Sset([other[0]["shares"][0]] + sh[:max(1, k - 1)]); R(pw); R(other[0]["pw"])
             Sset(sh); R(pw)
         nops = sum(1 for o in ops if o in ("R", "S"))
         start = rng.sample(sh, max(1, min(len(sh), k)))
